@@ -283,7 +283,46 @@ func c11R2(c *Ctx) {
 	pe := p.Func(podENICtlPkg, "ReconcilePodENI.podENICreate")
 	if pe != nil {
 		for _, call := range p.CallsTo([]*FuncInfo{pe}, att.Obj) {
-			c.Require("C11.R2", "attach only for a first bind or a fixed-IP rebind", pe, call.Call, "needAttach", nil)
+			// stated on the record and the pod, whatever the code calls its flag: the record is fresh
+			// (phase "") or the pod has a stable name (the per-allocation Fixed test is an existential
+			// over the allocations and is not decided)
+			var podX, recX string
+			for _, a := range call.Call.Args {
+				t := pe.Info().TypeOf(a)
+				if typeIs(t, "k8s.io/api/core/v1", "Pod") {
+					podX = exprString(a)
+				}
+				if typeIs(t, modPath+"/"+apiPkg, "PodENI") {
+					recX = exprString(a)
+				}
+			}
+			if podX == "" || recX == "" {
+				// the record is the handler's *PodENI parameter; the pod is the *corev1.Pod variable
+				// the handler hands to the predicates it consults before attaching
+				podX, recX = "", ""
+				for _, f := range pe.Decl.Type.Params.List {
+					for _, n := range f.Names {
+						if typeIs(pe.Info().TypeOf(f.Type), modPath+"/"+apiPkg, "PodENI") {
+							recX = n.Name
+						}
+					}
+				}
+				for _, cs := range p.CallsIn(pe) {
+					if cs.Call.Pos() > call.Call.Pos() {
+						continue
+					}
+					for _, a := range cs.Call.Args {
+						if id, ok := ast.Unparen(a).(*ast.Ident); ok && typeIs(pe.Info().TypeOf(a), "k8s.io/api/core/v1", "Pod") {
+							podX = id.Name
+						}
+					}
+				}
+			}
+			if podX == "" || recX == "" {
+				c.Undec("C11.R2", "attach only for a first bind or a fixed-IP rebind", p.Pos(call.Call), pe.Key(), "", "pod / record expressions not found")
+				continue
+			}
+			c.Require("C11.R2", "attach only for a first bind or a fixed-IP rebind", pe, call.Call, recX+`.Status.Phase == "" || utils.IsFixedNamePod(`+podX+`)`, nil)
 		}
 	}
 }
